@@ -10,8 +10,10 @@ writer mapping on generated namespaces, plus direct comparisons of `_enum_common
 `_strip_symbol` on arbitrary strings; (3) an oracle written from the property statement
 (plain Python, no model code) judged on the REAL implementation's GIR for every declaration.
 """
+import ctypes
 import json
 import os
+import signal
 import sys
 import types
 from xml.etree import ElementTree as ET
@@ -21,23 +23,78 @@ import scanpipe
 from scanpipe import q as Q
 
 # ---------------------------------------------------------------------------------------------
-# Genuine limitations of the unchanged code, recorded (see the final report of the C13 work
-# package).  Keys are stable per resolved type name; they route through ctx.report_failure and
-# are printed as KNOWN-FINDING lines.  The integrator moves them to known_findings.json or
-# repairs the code.
-PLATFORM_UNSIGNED = {'gulong': 64, 'gsize': 64, 'guintptr': 64, 'unsigned long long': 64}
+# Widths of the unsigned integer types, written down from the C / GLib definitions (NOT read from
+# the scanner): the fixed ones are the same on every ABI GLib supports (`unsigned long long` is 64
+# bits on ILP32, LP64 and LLP64 alike); the platform ones are measured on the running platform with
+# ctypes (the scanner describes the platform it runs on).
 FIXED_UNSIGNED = {'guint8': 8, 'guint16': 16, 'guint32': 32, 'guint64': 64, 'guint': 32, 'gushort': 16,
-                  'gunichar': 32}
+                  'gunichar': 32, 'unsigned long long': 64}
+PLATFORM_UNSIGNED = {'gulong': 8 * ctypes.sizeof(ctypes.c_ulong), 'gsize': 8 * ctypes.sizeof(ctypes.c_size_t),
+                     'guintptr': 8 * ctypes.sizeof(ctypes.c_void_p)}
+
+# Genuine limitations of the unchanged code.  A failing constant is put in a class only when the
+# GIR shows exactly the signature of that class (right name, c:type and <type>, value = the integer
+# as written, i.e. not wrapped at all); anything else is reported under the exact input.
+#
+# CLASS_FINDINGS: the merged keys (one per defect = one per proposed repair).
+#   const-unwrapped:unsigned-long-long   declared type resolves to `unsigned long long` (64 bits everywhere)
+#   const-unwrapped:platform-width       ... to gulong / gsize / guintptr (width depends on the platform)
+#   const-unwrapped:alias-chain          ... to ANY unsigned type through two or more typedefs
+# LEGACY: the per-type keys recorded first (const-unwrapped:<type>, const-unwrapped:alias-chain:<type>).
+# A failure is reported under the class key when known_findings.json lists it, else under the legacy
+# key (so both key sets work); a constant that needs two repairs (a chain ending in gulong) is
+# reported under whichever of its causes is still known.
+CLASS_FINDINGS = {
+    'const-unwrapped:unsigned-long-long':
+        "constants of type `unsigned long long` are emitted unwrapped: '#define FOO_X ((unsigned long long) -1)' "
+        'gives value="-1" (no branch of the wrap chain in _create_const tests TYPE_LONG_ULONG)',
+    'const-unwrapped:platform-width':
+        "constants of the platform-width unsigned types gulong, gsize, guintptr (and their C spellings unsigned "
+        "long, size_t, uintptr_t, ulong) are emitted unwrapped: '#define FOO_X ((gsize) -1)' gives value=\"-1\" "
+        '(no branch of the wrap chain in _create_const tests TYPE_ULONG / TYPE_SIZE / TYPE_UINTPTR)',
+    'const-unwrapped:alias-chain':
+        'constants whose type reaches an unsigned type through two or more typedefs are emitted unwrapped: '
+        "typedef guint8 FooA; typedef FooA FooB; '#define FOO_X ((FooB) -1)' gives value=\"-1\" (resolve_aliases "
+        'stops at the first alias because alias targets are still unresolved while parsing)',
+}
+LEGACY_PLATFORM = ['gulong', 'gsize', 'guintptr', 'unsigned long long']
+LEGACY_CHAIN = ['guint8', 'guint16', 'guint32', 'guint64', 'guint', 'gushort', 'gunichar']
 PENDING_FINDINGS = [
     ('const-unwrapped:' + f,
      "constants of platform-width unsigned type %s are emitted unwrapped: '#define FOO_X ((%s) -1)' gives "
-     'value="-1"' % (f, f)) for f in sorted(PLATFORM_UNSIGNED)
+     'value="-1"' % (f, f)) for f in sorted(LEGACY_PLATFORM)
 ] + [
     ('const-unwrapped:alias-chain:' + f,
      'constants whose type reaches %s through two or more typedefs are emitted unwrapped: typedef %s FooA; '
      "typedef FooA FooB; '#define FOO_X ((FooB) -1)' gives value=\"-1\" (resolve_aliases stops at the first "
-     'alias because alias targets are still unresolved while parsing)' % (f, f)) for f in sorted(FIXED_UNSIGNED)
+     'alias because alias targets are still unresolved while parsing)' % (f, f)) for f in sorted(LEGACY_CHAIN)
 ]
+
+
+def unwrapped_causes(fund, depth):
+    """the defect classes that can explain an unwrapped constant whose declared type reaches the unsigned
+    fundamental type `fund` through `depth` typedefs: [(class key, legacy key or None)], in reporting order"""
+    out = []
+    if fund == 'unsigned long long':
+        out.append(('const-unwrapped:unsigned-long-long', 'const-unwrapped:unsigned long long'))
+    elif fund in PLATFORM_UNSIGNED:
+        out.append(('const-unwrapped:platform-width', 'const-unwrapped:' + fund))
+    if depth >= 2:
+        out.append(('const-unwrapped:alias-chain',
+                    'const-unwrapped:alias-chain:' + fund if fund in LEGACY_CHAIN else None))
+    return out
+
+
+def unwrapped_key(ctx, fund, depth):
+    """the key to report an unwrapped constant under: the first known key among its causes (class key
+    before legacy key); None when no cause applies, the first class key when none is known"""
+    causes = unwrapped_causes(fund, depth)
+    for ck, lk in causes:
+        for k in (ck, lk):
+            if k is not None and ctx.is_known(k) is not None:
+                return k
+    return causes[0][0] if causes else None
+
 
 CONTAINERS = {'GList', 'GSList', 'GByteArray', 'GArray', 'GPtrArray', 'GHashTable', 'GStrv'}
 
@@ -186,14 +243,21 @@ def gen_typedefs(rng, ns, keys):
     out = []
     names = []
     for i in range(rng.randint(0, 5)):
-        if names and rng.random() < 0.45:
+        r = rng.random()
+        if names and r < 0.45:
             target = rng.choice(names)
+        elif r < 0.47:
+            target = idp[-1] + 'Missing%d' % i      # a name of this namespace that is never declared
+        elif r < 0.49 and len(idp) > 1:
+            target = idp[1] + 'T%d' % i             # undeclared; under idp[0] its stripped name is the typedef's own
         else:
             target = rng.choice(keys)
             if rng.random() < 0.05:
                 target += '*'
         r = rng.random()
-        if r < 0.85:
+        if target == idp[-1] + 'T%d' % i and len(idp) > 1:
+            name = '%sT%d' % (idp[0], i)
+        elif r < 0.85:
             name = '%sT%d' % (rng.choice(idp), i)
         elif r < 0.9:
             name = 'OtherT%d' % i          # foreign: dropped with a warning
@@ -313,10 +377,36 @@ def to_scanpipe(case):
             'decls': decls}
 
 
+class ScanTimeout(BaseException):
+    """the real scanner did not come back (BaseException: nothing inside the scanner swallows it)"""
+
+
+SCAN_TIMEOUT_S = 30
+
+
+def _scan_with_timeout(cfg):
+    """scanpipe.scan under an interval timer: a scan that hangs is a failure of the real code on this
+    input (reported by the oracle as a crash), not a harness timeout"""
+    def on_alarm(signum, frame):
+        raise ScanTimeout()
+    try:
+        prev = signal.signal(signal.SIGALRM, on_alarm)
+    except ValueError:                      # not the main thread: no timer available
+        return scanpipe.scan(cfg)
+    signal.setitimer(signal.ITIMER_REAL, SCAN_TIMEOUT_S)
+    try:
+        return scanpipe.scan(cfg)
+    finally:
+        signal.setitimer(signal.ITIMER_REAL, 0)
+        signal.signal(signal.SIGALRM, prev)
+
+
 def run_impl(case):
     """-> {'fatal': kind} | {'nodes': {c:type: record}, 'warnings': [text]}"""
     try:
-        res = scanpipe.scan(to_scanpipe(case))
+        res = _scan_with_timeout(to_scanpipe(case))
+    except ScanTimeout:
+        return {'fatal': 'exception:ScanTimeout: the scanner did not finish within %d s' % SCAN_TIMEOUT_S}
     except SystemExit as e:
         return {'fatal': 'conflict' if 'Namespace conflict' in str(e) else 'exit:' + str(e)[:80]}
     except IndexError:
@@ -597,16 +687,19 @@ def oracle_const(ctx, cnt, case, pos, d, impl):
                     want['value'] = str(v)
                     kind = 'int:signed%s' % (':alias%d' % depth if depth else '')
                 if got is not None and got.get('value') != want['value'] and width:
-                    if fund in PLATFORM_UNSIGNED:
-                        key = 'const-unwrapped:' + fund
-                    elif depth >= 2:
-                        key = 'const-unwrapped:alias-chain:' + fund
-                    else:
+                    # a recorded class only when the GIR shows exactly its signature: everything right
+                    # except that the integer was emitted as written (not wrapped at all)
+                    signature = got.get('value') == str(v) and got.get('ctype') == name and \
+                        got.get('name') == stripped and \
+                        all(got.get(k) == val for k, val in want.items() if k != 'value')
+                    key = unwrapped_key(ctx, fund, depth) if signature else None
+                    if key is None:
                         key = 'const:' + json.dumps([d, case['decls'][:pos]], sort_keys=True)
                     ctx.report_failure(key, 'constant %s of type %s (= %s through %d typedefs) has value=%r; the '
                                        'property requires %r (0 <= value < 2**%d, congruent to %d)'
                                        % (name, t, fund, depth, got.get('value'), want['value'], width, v),
                                        {'kind': 'case', 'case': case, 'decl': d, 'got': got, 'required': want})
+                    cnt.hit('oracle:const:unwrapped-class:' + (key if key.startswith('const-unwrapped:') else 'none'))
                     return 'known-or-fail:' + kind
     elif d.get('bool') is not None:
         want = {'value': 'true' if d['bool'] else 'false', 'tname': 'gboolean'}
@@ -738,9 +831,11 @@ def run(ctx):
     # every key of type_names, directly and through one and two typedefs, at -1 and at a large value
     sweep = []
     for i, k in enumerate(keys):
-        decls = [{'d': 'typedef', 'name': 'FooA', 'target': k}, {'d': 'typedef', 'name': 'FooB', 'target': 'FooA'}]
+        decls = [{'d': 'typedef', 'name': 'FooA', 'target': k}, {'d': 'typedef', 'name': 'FooB', 'target': 'FooA'},
+                 {'d': 'typedef', 'name': 'FooC', 'target': 'FooB'}]
         for j, (t, v) in enumerate([(k, -1), (k, gen_value(rng)), ('FooA', -1), ('FooA', gen_value(rng)),
-                                    ('FooB', -1), (k, (1 << 64) - 1), (k, -(1 << 63))]):
+                                    ('FooB', -1), (k, (1 << 64) - 1), (k, -(1 << 63)), ('FooB', gen_value(rng)),
+                                    ('FooC', -1), ('FooC', gen_value(rng))]):
             decls.append({'d': 'const', 'name': 'FOO_K%d' % j, 'int': v, 'type': t})
         sweep.append({'namespace': 'Foo', 'id_prefixes': ['Foo'], 'sym_prefixes': ['foo'], 'decls': decls})
     cases.extend(sweep)
@@ -891,7 +986,7 @@ def run(ctx):
                 'aliases / enum / unknown / pointer type or none, values around every power-of-two boundary; strings '
                 'with quotes and non-ASCII; booleans; doubles; with/without namespace prefix, hidden, non-.h file, '
                 'duplicates), each run through the real pipeline to GIR text and through the model; a sweep of every '
-                'type_names key x {direct, 1 typedef, 2 typedefs}; ident lists over small alphabets for '
+                'type_names key x {direct, 1, 2, 3 typedefs}; typedefs of undeclared names (also one that resolves to the typedef itself through a second identifier prefix); ident lists over small alphabets for '
                 '_enum_common_prefix; _strip_symbol on prefix look-alikes. non-trivial = non-empty declaration list / '
                 '>= 2 idents / ident longer than 2; distinct by content hash. Every case: model vs real code, and '
                 'the statement oracle on the real code.',
@@ -900,6 +995,7 @@ def run(ctx):
         'corpus_cases': len(corpus),
         'pipeline_cases': len(cases),
         'pending_findings': [k for k, _ in PENDING_FINDINGS],
+        'class_findings': sorted(CLASS_FINDINGS),
         'exhaustive': False,
         'exhaustive_small_scope': exhaustive_note,
     })
@@ -915,7 +1011,9 @@ def run(ctx):
         'about ranges assume no pointer stars in the declared type and in alias targets (correspondence covers them)',
         'no namespace node is named like a fundamental type (so _resolve_type_from_ctype leaves fundamental '
         'types alone); value annotations on constants belong to C03',
-        'platform-width unsigned types are judged at this platform\'s widths (LP64: 64 bits)',
+        'platform-width unsigned types (gulong, gsize, guintptr) are judged at the widths ctypes measures on the '
+        'running platform (%s); `unsigned long long` is 64 bits on every ABI GLib supports' % (
+            ', '.join('%s=%d' % kv for kv in sorted(PLATFORM_UNSIGNED.items())), ),
     ])
 
 
